@@ -39,7 +39,7 @@ ANCHORS = [
 ]
 REQUIRED = ["set_pilot_judged", "accepted", "rejected", "regime:EVSE", "regime:DeadbandEVSE", "regime:FiniteRatesEVSE",
             "rejected_with_ev_state_checked", "pilot_equals_current", "pilot_exact_zero", "pilot_repeated", "replug_between_pilots",
-            "advertised_values_applied", "advertised_after_json", "plugin_occupied_refused"]
+            "advertised_values_applied", "suite:set_pilot_judged", "advertised_after_json", "plugin_occupied_refused"]
 BUDGET_S = {"quick": 200, "thorough": 2400}
 OFFS = [0, 1e-6, 5e-4, 9.99e-4, 1.001e-3, 2e-3, 0.5, 3]
 
@@ -119,6 +119,8 @@ def _after(ctx, result, exc):
 
 def worker_init():
     from acnportal.acnsim.models import BaseEVSE
+    if _WRAPS:
+        return
     for cls in defining_classes(BaseEVSE, "set_pilot"):
         _WRAPS.append(Wrap(cls, "set_pilot", before=_before, after=_after).install())
 
@@ -164,6 +166,7 @@ def cases(seed, tier):
         out.append({"kind": "direct", "evse": e, "with_ev": rng.random() < 0.5, "n": 60, "seed": rng.randrange(1 << 30)})
     for i in range(nn):
         out.append({"kind": "advert", "seed": rng.randrange(1 << 30)})
+    out.append({"kind": "suite"})  # the repository's own tests as one more workload under the same monitor
     return out
 
 
@@ -307,6 +310,12 @@ def run_case(case, obs):
     try:
         if case["kind"] == "direct":
             _run_direct(case, obs)
+        elif case["kind"] == "suite":
+            CUR["obs"] = None  # the monitors live in the pytest subprocess
+            from vlib import simrun
+            simrun.run_repo_suite_monitored("C13", obs)
+            obs.evals = max(1, obs.events.get("suite:set_pilot_judged", 0))
+            obs.sample = {"kind": "suite", "set_pilot_judged": obs.events.get("suite:set_pilot_judged", 0)}
         else:
             _run_advert(case, obs)
     finally:
